@@ -55,10 +55,25 @@ Proof. intros b H; exact H. Qed.
 
 Lemma and_o_mono (a a' b b' : option bool) : le_o a a' -> le_o b b' -> le_o (and_o a b) (and_o a' b').
 Proof.
-  intros Ha Hb r. destruct a as [[|]|]; cbn [and_o].
-  - rewrite (Ha true eq_refl). cbn [and_o]. apply Hb.
-  - destruct b as [x|]; [|discriminate]. rewrite (Ha false eq_refl), (Hb x eq_refl). cbn [and_o]. trivial.
-  - discriminate.
+  intros Ha Hb r H.
+  destruct a as [[|]|], b as [[|]|]; cbn in H; try discriminate H;
+    try rewrite (Ha _ eq_refl); try rewrite (Hb _ eq_refl); cbn; try exact H;
+    destruct b' as [[|]|]; cbn; try exact H; destruct a' as [[|]|]; cbn; exact H.
+Qed.
+
+Lemma or_o_mono (a a' b b' : option bool) : le_o a a' -> le_o b b' -> le_o (or_o a b) (or_o a' b').
+Proof.
+  intros Ha Hb r H.
+  destruct a as [[|]|], b as [[|]|]; cbn in H; try discriminate H;
+    try rewrite (Ha _ eq_refl); try rewrite (Hb _ eq_refl); cbn; try exact H;
+    destruct b' as [[|]|]; cbn; try exact H; destruct a' as [[|]|]; cbn; exact H.
+Qed.
+
+Lemma any_o_mono {A} (F G : A -> option bool) (l : list A) :
+  (forall x, le_o (F x) (G x)) -> le_o (any_o F l) (any_o G l).
+Proof.
+  intros H. induction l as [|x r IH]; cbn [any_o]; [apply le_o_refl|].
+  apply or_o_mono; [apply H|exact IH].
 Qed.
 
 Lemma all_o_mono {A} (F G : A -> option bool) (l : list A) :
@@ -107,8 +122,7 @@ Proof.
                 end)
         (and_o (match anyof with
                 | None => Some true
-                | Some l => match count_o (fun a => valid_f n ds a j) l with
-                            | Some k => Some (Nat.ltb 0 k) | None => None end
+                | Some l => any_o (fun a => valid_f n ds a j) l
                 end)
         (and_o (match oneof with
                 | None => Some true
@@ -153,8 +167,7 @@ Proof.
                 end)
         (and_o (match anyof with
                 | None => Some true
-                | Some l => match count_o (fun a => valid_f (S n) ds a j) l with
-                            | Some k => Some (Nat.ltb 0 k) | None => None end
+                | Some l => any_o (fun a => valid_f (S n) ds a j) l
                 end)
         (and_o (match oneof with
                 | None => Some true
@@ -183,9 +196,7 @@ Proof.
         destruct (existsb _ props); [apply le_o_refl|].
         destruct (last_j (fst kv) o); [apply IH|apply le_o_refl]. }
   apply and_o_mono.
-  { destruct anyof as [l|]; [|apply le_o_refl]. intros b.
-    destruct (count_o (fun a => valid_f n ds a j) l) as [k|] eqn:C; [|discriminate].
-    rewrite (count_o_mono _ (fun a => valid_f (S n) ds a j) l (fun x => IH ds x j) k C). trivial. }
+  { destruct anyof as [l|]; [|apply le_o_refl]. apply any_o_mono. intros x. apply IH. }
   apply and_o_mono.
   { destruct oneof as [l|]; [|apply le_o_refl]. intros b.
     destruct (count_o (fun a => valid_f n ds a j) l) as [k|] eqn:C; [|discriminate].
